@@ -1,6 +1,6 @@
 """C01 — a ready task is handed to at most one claimant."""
 import json, os, tempfile
-from .. import common, framework, fndiff, cmdrun, gen, oracles, strace, crash, sched
+from .. import common, framework, fndiff, cmdrun, gen, oracles, strace, crash, sched, explore2
 
 CLAIM_PROGRAM = ['open(lock,O_RDONLY)', 'flock(LOCK_EX|LOCK_NB)', 'open(log,O_RDONLY)', 'read(log)', 'close(log)', 'open(log,O_APPEND|O_CREAT|O_RDWR)',
                  'read(log)', 'write(log)', 'close(log)', 'flock(LOCK_UN)', 'close(lock)']
@@ -136,7 +136,13 @@ def run(ctx):
         parked_schedules(ctx, r.fork(), big=(250 if i % 2 == 0 else 0))      # large logs make the Go runtime collect inside the lock section
     for i in range(12 if ctx.quick else 300):
         free_running(ctx, r.fork())
-    ctx.cov["rule"] = ("real `claim` processes: claimer A parked (strace SIGSTOP) after each of its system calls between lock and unlock, claimer B run meanwhile (must get `lock busy`, promptly), "
+    # a claimer against every other kind of writer (compact and plan replace the log file, prune and set change what is ready), also on a
+    # store whose log still has the legacy name: the claim must land in the log every reader reads, and the reply must be true
+    for i in range(6 if ctx.quick else 120):
+        kb = [("compact",), ("plan", "prune"), ("set+state", "close", "reopen"), ("compact", "claim_oldest"), ("new", "sequence"), ("compact", "plan")][i % 6]
+        explore2.explore(ctx, "C01", r.fork(), kindsA=("claim_oldest",), kindsB=kb, max_points=(7 if ctx.quick else 40), state_cmds=8, legacy=(i % 2 == 0),
+                         weights={"new_task": 60, "new_epic": 6, "set": 14, "sequence": 14, "plan": 6})
+    ctx.cov["rule"] = ("claim ∥ compact/plan/prune/set two-process schedules (also on a legacy-named log) with serial-equivalence and reply oracles; real `claim` processes: claimer A parked (strace SIGSTOP) after each of its system calls between lock and unlock, claimer B run meanwhile (must get `lock busy`, promptly), "
                        "A resumed; and 2–6 claimers started together under the OS scheduler; audit from the final log: each winner got the head of the ready list of the log prefix before "
                        "its claim line, claim+state lines adjacent, no task twice, replies = log, winners doing/claimed; claim's system-call program compared with the expected one")
     ctx.assumptions += ["flock(2) mutual exclusion on one host; strace does not change the order of a process's own calls"]
